@@ -28,7 +28,9 @@ def cfg_spec(c):
 class Real:
     """a real decoder built from a config dict; keeps its dump file in a temp dir"""
     DB = None
-    def __init__(self, c):
+    def __init__(self, c, shared=None):
+        """`shared`: a dict in which the keyword-argument OBJECTS (lists, dict) are kept, so that several decoders can be built from the very
+        same settings objects, as an application with one settings structure does"""
         from nmea2000.decoder import NMEA2000Decoder
         from nmea2000.consts import PhysicalQuantities
         self.tmp = None
@@ -36,6 +38,8 @@ class Real:
                   exclude_manufacturer_code=list(c.get("exm", [])), include_manufacturer_code=list(c.get("inm", [])),
                   preferred_units={PhysicalQuantities[k]: v for k, v in c.get("units", {}).items()},
                   dump_pgns=list(c.get("dumppgns", [])), build_network_map=bool(c.get("map")))
+        if shared is not None:
+            kw = shared.setdefault("kw", kw)
         if c.get("dump"):
             self.tmp = tempfile.TemporaryDirectory()
             kw["dump_to_file"] = os.path.join(self.tmp.name, "dump.jsonl")
@@ -463,6 +467,41 @@ def monitor_identity(ctx, n_hist=6, steps=60):
                     d.close(); ref.close()
                     return {"kind": "identity", "config": cfg, "history": ser_history(h[:k + 1]), "what": f"step {k}: {bad}"}, n
             d.close(); ref.close()
+    return None, n
+
+
+def monitor_shared_settings(ctx, steps=40):
+    """C16 on the real code: several decoders built one after the other from the SAME settings objects (the lists and the dict an
+    application keeps its configuration in).  The last one must return what a decoder built from a pristine copy returns — an instance
+    created earlier must not have changed the configuration of a later one"""
+    harness.load_repo()
+    db = pgncorr.Db(ctx["repo"])
+    rnd = random.Random(ctx["seed"] + 67)
+    extra = [{"exclude": [60928, 127250]}, {"exclude": [60928]}, {"exclude": ["isoAddressClaim", 127250]}, {"include": [60928, 127250]}, {"include": [60928]},
+             {"include": ["isoAddressClaim"]}, {"exclude": [127250, 60928], "map": True}, {"include": [129025, 60928], "exm": ["garmin"]}]
+    cfgs = extra + [c for c in CONFIGS if not c.get("dump")]
+    n = 0
+    for c in cfgs:
+        if c.get("exclude") and c.get("include"):
+            continue
+        h = gen_history(rnd, db, steps)
+        ref = Real(c)
+        if ref.d is None:
+            continue
+        shared = {}
+        first = Real(c, shared=shared)
+        second = Real(c, shared=shared)
+        third = Real(c, shared=shared)
+        for k, inp in enumerate(h):
+            n += 1
+            a = ref.feed(inp)[0]
+            first.feed(inp)
+            b = third.feed(inp)[0]
+            if a != b:
+                return {"kind": "shared-settings", "config": c, "history": ser_history(h[:k + 1]),
+                        "what": f"config {c}: the third decoder built from the same settings objects returns {b[:90]} at step {k}, a decoder built from a pristine copy returns {a[:90]}"}, n
+        for r in (ref, first, second, third):
+            r.close()
     return None, n
 
 
